@@ -236,6 +236,7 @@ func init() {
 	register("C02", func(c *Ctx) {
 		p := c.P
 		c02OverrideOnlyWhenAbsent(c)
+		c02AdapterKeepsEveryReceipt(c)
 		concurrentCaptureRule(c, "concurrent-capture", func(pk string) bool { return pk == "core" })
 		memoKeyRule(c, "memo-key", func(pk string) bool {
 			return pk == "core" || strings.HasPrefix(pk, "adapters/") || strings.HasPrefix(pk, "starknetdata") || pk == "blockchain" || pk == "sync"
@@ -982,4 +983,50 @@ func c02ReceiptCheckers(p *Prog, f *ssa.Function, _ dnf) []*ssa.Function {
 		}
 	}
 	return out
+}
+
+// c02AdapterKeepsEveryReceipt: (adapter-complete) what verification sees is what the source sent: in sn2core.AdaptBlock the
+// receipts list handed to the block is as long as the response's receipts list (`make(…, len(response.Receipts))`, or built by
+// ranging over response.Receipts) — never sized by the number of transactions. VerifyBlockHash rejects a block whose receipts
+// and transactions differ in number; an adapter that truncates the surplus (seeded change C02-N) turns a block that differs
+// from the valid one into the valid one before the check can see it.
+func c02AdapterKeepsEveryReceipt(c *Ctx) {
+	p := c.P
+	f := p.Func("adapters/sn2core", "", "AdaptBlock")
+	if f == nil {
+		c.und("adapter-complete", "sn2core.AdaptBlock", "", "anchor not found")
+		return
+	}
+	n := 0
+	for _, g := range samePkgScope(f, 1) {
+		allInstrsOne(g, func(in ssa.Instruction) {
+			mk, ok := in.(*ssa.MakeSlice)
+			if !ok || !strings.Contains(mk.Type().String(), "TransactionReceipt") {
+				return
+			}
+			n++
+			lt := ""
+			fromReceipts := false
+			for v := range backSlice(mk.Len) {
+				if fa, ok := v.(*ssa.FieldAddr); ok && fieldName(fa.X.Type(), fa.Field) == "Receipts" {
+					fromReceipts = true
+				}
+				if fld, ok := v.(*ssa.Field); ok && fieldName(fld.X.Type(), fld.Field) == "Receipts" {
+					fromReceipts = true
+				}
+			}
+			lt = term(mk.Len)
+			c.check(fromReceipts, "adapter-complete", "AdaptBlock: receipts list length", p.Pos(posOf(in, g)), "as many receipts as the response carries", "the adapted block's receipts list is sized by "+clip(lt, 120)+", not by the number of receipts in the response: surplus (or missing) receipts are dropped before block verification can reject the block")
+		})
+	}
+	if n == 0 {
+		// built by append while ranging over the response's receipts: accept only that shape
+		ranged := false
+		allInstrsOne(f, func(in ssa.Instruction) {
+			if r, ok := in.(*ssa.Range); ok && strings.HasSuffix(term(r.X), ".Receipts") {
+				ranged = true
+			}
+		})
+		c.check(ranged, "adapter-complete", "AdaptBlock: receipts list", p.Pos(fnPos(f)), "built by ranging over the response's receipts", "the construction of the adapted receipts list was not recognised (neither make(…, len(response.Receipts)) nor a range over response.Receipts)")
+	}
 }
